@@ -1,6 +1,7 @@
 package main
 
 import (
+	"strings"
 	"fmt"
 	"go/token"
 	"go/types"
@@ -273,8 +274,8 @@ func propC08(c *Ctx) {
 			c.Check("R8.2", fmt.Sprintf("%s/update#%d-pair", fnName(fn), callOrdinal(u)), u.Pos(), same, "update receives the number and the hash of one decoded header value")
 		}
 	}
-	if nUp < 3 {
-		c.Violation("R8.2", "update-call-sites", update.Pos(), fmt.Sprintf("expected >= 3 update call sites (ws, poll, Latest), found %d", nUp))
+	if nUp < 2 {
+		c.Violation("R8.2", "update-call-sites", update.Pos(), fmt.Sprintf("expected >= 2 update call sites (the websocket listener and the HTTP path – poller and Latest, possibly through one helper), found %d", nUp))
 	}
 	// Latest's uncached return
 	{
@@ -381,8 +382,40 @@ func propC08(c *Ctx) {
 	}
 	{
 		// cache.get: seg.nreads++ precedes the cached return; pruneMaxRead precedes the look-up; pruneMaxRead deletes on nreads >= maxreads
-		prune := w.Fn("jrpc2", "(*cache).pruneMaxRead")
+		prune := w.FnOpt("jrpc2", "(*cache).pruneMaxRead")
 		reg := NewRegion(get) // get with its single-use helpers inlined
+		fSegs := w.Field("jrpc2", "cache", "segments")
+		// the predicate of maps.DeleteFunc(c.segments, pred): true exactly at nreads >= maxreads
+		judgePred := func(v ssa.Value) bool {
+			var pred *ssa.Function
+			switch p := stripConv(v).(type) {
+			case *ssa.MakeClosure:
+				pred = p.Fn.(*ssa.Function)
+			case *ssa.Function:
+				pred = p
+			}
+			if pred == nil {
+				return false
+			}
+			if real := unwrapBound(pred); len(real) == 1 {
+				pred = real[0] // a method value (c.spent)
+			}
+			good, nRet := true, 0
+			for _, r := range returnsOf(pred) {
+				for _, lf := range phiLeaves(returnValues(r)[0]) {
+					nRet++
+					b, isB := lf.Val.(*ssa.BinOp)
+					if !isB || b.Op != token.GEQ || !isLoadOfField(b.X, fSegReads) || !(isLoadOfField(b.Y, fCMax) || fieldIsLoadThroughFreeVar(b.Y, fCMax)) {
+						good = false
+					}
+				}
+			}
+			return good && nRet > 0
+		}
+		isDeleteFunc := func(call *ssa.Call) bool {
+			n := calleeName(call)
+			return (n == "maps.DeleteFunc" || strings.HasPrefix(n, "maps.DeleteFunc[")) && len(call.Call.Args) == 2 && isLoadOfField(stripConv(call.Call.Args[0]), fSegs)
+		}
 		var inc ssa.Instruction
 		var doneStores []ssa.Instruction
 		reg.AllInstrs(func(in ssa.Instruction) {
@@ -450,12 +483,30 @@ func propC08(c *Ctx) {
 			}
 		})
 		var pr []ssa.Instruction
+		inlineDel := false
 		for _, ci := range reg.Calls() {
-			if call, ok := ci.(*ssa.Call); ok && staticCallee(call) == prune {
+			call, ok := ci.(*ssa.Call)
+			if !ok {
+				continue
+			}
+			if prune != nil && staticCallee(call) == prune {
 				pr = append(pr, call)
+			}
+			// the eviction written where it is needed: maps.DeleteFunc(c.segments, c.spent)
+			if prune == nil && isDeleteFunc(call) {
+				pr = append(pr, call)
+				inlineDel = judgePred(call.Call.Args[1])
 			}
 		}
 		c.Check("R8.3", "cache.get/prune-before-lookup", get.Pos(), len(pr) == 1 && lookup != nil && reg.Dominates(pr[0], lookup), "segments whose budget is used up are evicted before the look-up")
+		if prune == nil {
+			pos := get.Pos()
+			if len(pr) == 1 {
+				pos = pr[0].Pos()
+			}
+			c.Check("R8.3", "cache.pruneMaxRead/evicts-at-budget", pos, inlineDel, "a segment with nreads >= maxreads is deleted from the map")
+			return
+		}
 		over, _ := cmpEdgesVF(prune, token.GEQ, func(v ssa.Value) bool { return isFieldArg(v, fSegReads) }, func(v ssa.Value) bool { return isFieldArg(v, fCMax) }, fSegReads, fCMax)
 		okDel := len(over) > 0
 		for _, e := range over {
@@ -473,33 +524,8 @@ func propC08(c *Ctx) {
 		}
 		if !okDel {
 			// the same with the standard library: maps.DeleteFunc(c.segments, func(k, v) bool { return v.nreads >= c.maxreads })
-			fSegs := w.Field("jrpc2", "cache", "segments")
 			for _, ci := range callsIn(prune) {
-				call, ok := ci.(*ssa.Call)
-				if !ok || calleeName(call) != "maps.DeleteFunc" || len(call.Call.Args) != 2 || !isLoadOfField(stripConv(call.Call.Args[0]), fSegs) {
-					continue
-				}
-				var pred *ssa.Function
-				switch p := stripConv(call.Call.Args[1]).(type) {
-				case *ssa.MakeClosure:
-					pred = p.Fn.(*ssa.Function)
-				case *ssa.Function:
-					pred = p
-				}
-				if pred == nil {
-					continue
-				}
-				good, nRet := true, 0
-				for _, r := range returnsOf(pred) {
-					for _, lf := range phiLeaves(returnValues(r)[0]) {
-						nRet++
-						b, isB := lf.Val.(*ssa.BinOp)
-						if !isB || b.Op != token.GEQ || !isLoadOfField(b.X, fSegReads) || !(isLoadOfField(b.Y, fCMax) || fieldIsLoadThroughFreeVar(b.Y, fCMax)) {
-							good = false
-						}
-					}
-				}
-				if good && nRet > 0 {
+				if call, ok := ci.(*ssa.Call); ok && isDeleteFunc(call) && judgePred(call.Call.Args[1]) {
 					okDel = true
 				}
 			}
